@@ -47,6 +47,12 @@ def main(argv=None):
     if ns.replay:
         with open(ns.replay) as f:
             rec = json.load(f)
+        if isinstance(rec['case'], dict) and rec['case'].get('impl_crash'):
+            print('replay: this record is the traceback of an exception raised by the implementation while a shard was exploring;')
+            print('        re-run ./check {} to reproduce it:'.format(prop))
+            print(rec['case']['traceback'])
+            print('VIOLATION property={} replay={}'.format(prop, os.path.abspath(ns.replay)))
+            return 1
         details = mod.replay(rec['case'])
         for d in details:
             print('replay:', d)
@@ -66,7 +72,7 @@ def main(argv=None):
 
     # vacuity guards
     missing = [g for g in meta.get('required_guards', []) if not stats.counters.get(g)]
-    if missing:
+    if missing and not stats.impl_crashes:
         print('BROKEN-CHECK property={} vacuity guards at zero: {}'.format(prop, missing), file=sys.stderr)
         return 2
 
@@ -90,7 +96,7 @@ def main(argv=None):
             seen.add(v['case_id'])
             if reported >= 5:
                 break
-            if not ns.no_confirm and reported < 2:
+            if not ns.no_confirm and reported < 2 and not (isinstance(v['case'], dict) and v['case'].get('impl_crash')):
                 out, err = _confirm(prop, v)
                 if err:
                     print('BROKEN-CHECK property={} {}'.format(prop, err), file=sys.stderr)
